@@ -7,7 +7,7 @@ import time
 from .model import AnalysisError
 
 VERIF = os.path.dirname(os.path.dirname(os.path.abspath(__file__)))
-EVIDENCE_DIR = os.path.join(VERIF, "evidence")
+EVIDENCE_DIR = os.environ.get("LOKYSA_EVIDENCE_DIR") or os.path.join(VERIF, "evidence")
 REPLAY_DIR = os.path.join(EVIDENCE_DIR, "replay")
 KNOWN = os.path.join(VERIF, "known_findings.json")
 
